@@ -240,6 +240,63 @@ pub fn gen(seed: u64, thorough: bool, malformed: bool) {
             out.line(&format!("{} {} {}", name, hex(d), p));
         }
     }
+    // number shapes around the 32-byte blocks of the number skipper: integer parts of every length up to 100 digits, with
+    // well-formed and (malformed stream) doubled fraction / exponent tails; the number is the target or a sibling passed over
+    {
+        let wf_tails: &[&str] = &["", ".5", ".25e3", "e2", "E-7", ".000000000000000000000000000000005"];
+        let bad_tails: &[&str] = &[".5.5", ".5.5e1", ".25.", "..5", ".5e1.5", "e1e1", ".5e", "e+"];
+        let step = if thorough { 1 } else { 1 };
+        for nd in (1..=100usize).step_by(step) {
+            let tails: Vec<&str> = if malformed { bad_tails.iter().chain(wf_tails.iter().take(2)).copied().collect() } else { wf_tails.to_vec() };
+            for (ti, tail) in tails.iter().enumerate() {
+                if !thorough && !(nd % 32 <= 2 || nd % 32 >= 29 || (nd + ti) % 5 == 0) {
+                    continue;
+                }
+                let mut num = String::new();
+                if (nd + ti) % 3 == 0 {
+                    num.push('-');
+                }
+                for k in 0..nd {
+                    num.push((b'1' + ((k * 7 + nd) % 9) as u8) as char);
+                }
+                num.push_str(tail);
+                out.line(&format!("{} {} i0", name, hex(format!("[{}]", num).as_bytes())));
+                out.line(&format!("{} {} k{}", name, hex(format!("{{\"skipped\":{},\"target\":true}}", num).as_bytes()), hex(b"target")));
+                out.line(&format!("{} {} i1", name, hex(format!("[{} ,[7]]", num).as_bytes())));
+            }
+        }
+    }
+    // an escaped quote at every offset 0..130 of a container that the unchecked skipper passes over, followed by backslash-free
+    // text of several lengths and then real quotes (the escape carry of the 64-byte blocks must be consumed by a block without
+    // backslashes); a string full of brackets follows the container, the target comes after it
+    if !malformed {
+        for off in 0..=130usize {
+            for &n in (if thorough { &[0usize, 1, 30, 61, 62, 63, 64, 65, 100][..] } else { &[30usize, 62, 63, 64][..] }) {
+                for &m in &[0usize, 30, 63] {
+                    if !thorough && (off + n + m) % 2 == 1 && !(off % 64 >= 60 || off % 64 <= 2) {
+                        continue;
+                    }
+                    let mut inner = b"[\"".to_vec();
+                    inner.extend(std::iter::repeat(b'x').take(off));
+                    inner.extend_from_slice(b"\\\"");
+                    inner.extend(std::iter::repeat(b'y').take(n));
+                    inner.extend_from_slice(b"\",\"");
+                    inner.extend(std::iter::repeat(b'w').take(m));
+                    inner.extend_from_slice(b"\"]");
+                    let mut d = b"[".to_vec();
+                    d.extend_from_slice(&inner);
+                    d.extend_from_slice(b",\"],7,8\",1]");
+                    out.line(&format!("{} {} i2", name, hex(&d)));
+                    if (off + n) % 3 == 0 {
+                        let mut d = b"{\"a\":".to_vec();
+                        d.extend_from_slice(&inner);
+                        d.extend_from_slice(b",\"q\":\"}{\",\"z\":1}");
+                        out.line(&format!("{} {} k7a", name, hex(&d)));
+                    }
+                }
+            }
+        }
+    }
     let n = if thorough { 12000 } else { 1200 };
     let cfg = GenCfg { max_depth: 4, max_items: 4, ws: true, dup_keys: false, long_strings: true };
     for i in 0..n {
